@@ -23,3 +23,15 @@ package queue_info
 //@   pure
 //@   ensures result == (len(q.ChildQueues) == 0)
 //@ end
+
+// C10 (queue graph, constructor): the snapshot entry of a Queue object carries the object's name as
+// UID, the spec's parentQueue verbatim (no validation: "" = top level, anything else is looked up
+// later) and an empty, non-nil child list.
+//@ func NewQueueInfo
+//@   props C10
+//@   requires queue != nil
+//@   fresh
+//@   ensures [identity] result != nil && result.UID == queue.Name && result.ParentQueue == queue.Spec.ParentQueue
+//@   ensures [noChildrenYet] len(result.ChildQueues) == 0
+//@   ensures [name] result.Name == ite(queue.Spec.DisplayName != "", queue.Spec.DisplayName, queue.Name)
+//@ end
